@@ -22,6 +22,18 @@ fn observe_variant(variant: &str, bytes: &[u8]) -> String {
             let signer = match rpm::signature::pgp::Signer::load_from_asc_bytes(&key) { Ok(s) => s, Err(_) => return "err".into() };
             if p.sign_with_timestamp(signer, 1_600_000_000u32).is_err() { return "err".into(); }
         }
+        "signNow" => {
+            // `Package::sign` (signature time = now) with the signer passed by reference (`impl Signing for &T`)
+            let key = match std::fs::read("/repo/tests/assets/signing_keys/secret_ed25519.asc") { Ok(k) => k, Err(_) => return "err".into() };
+            let signer = match rpm::signature::pgp::Signer::load_from_asc_bytes(&key) { Ok(s) => s, Err(_) => return "err".into() };
+            let digests_ok = p.verify_digests().is_ok();
+            if p.sign(&signer).is_err() { return "err".into(); }
+            // the fresh signature must verify under the matching public key (judged only when the package's recorded
+            // digests were consistent to begin with: `verify_signature` checks them first)
+            let pubkey = match std::fs::read("/repo/tests/assets/signing_keys/public_ed25519.asc") { Ok(k) => k, Err(_) => return "err".into() };
+            let verifier = match rpm::signature::pgp::Verifier::load_from_asc_bytes(&pubkey) { Ok(v) => v, Err(_) => return "err".into() };
+            if digests_ok && p.verify_signature(&verifier).is_err() { return "err-verify".into(); }
+        }
         _ => {}
     }
     let o = p.metadata.get_package_segment_offsets();
@@ -149,7 +161,7 @@ pub fn gen(ctx: &mut Ctx) {
         ctx.req(&format!("offsets {}", hx(&bytes)));
         // values modified in memory: cleared / fresh / recomputed signature header
         if i % 10 == 0 {
-            let v = *ctx.rng.pick(&["clear", "newempty", "clearsig", "signE"]);
+            let v = *ctx.rng.pick(&["clear", "newempty", "clearsig", "signE", "signNow"]);
             ctx.req(&format!("offv {} {}", v, hx(&bytes)));
         }
     }
